@@ -49,7 +49,8 @@ KINDS = ([("ser_ds", f) for f in DS_FORMATS] + [("ser_view", f) for f in G_FORMA
          + [("query_view", q) for q in ("q_select", "q_ask", "q_construct", "q_describe", "q_optional", "q_agg", "q_path", "q_exists")]
          + [(k, "") for k in ("iso", "to_iso", "canon", "diff", "iter", "slice", "value", "items", "cbd", "all_nodes", "connected",
                               "graphs", "quads", "len", "contains", "resource", "path_eval", "triples_choices", "subjects", "contexts_of", "get_graph", "collection",
-                              "foreign_ctx", "graphs_of", "quad_patterns", "prepared", "other_facade")])
+                              "foreign_ctx", "graphs_of", "quad_patterns", "prepared", "other_facade", "path_reused", "to_iso_ds", "resource_transitive")])
+_PATHS = {}
 
 _PREPARED = {}
 
@@ -170,10 +171,48 @@ def do_read(w, kind, arg, target):
         return sorted(repr(g.identifier) for g in lister((s1, p1, o1)))
     if kind == "quad_patterns":
         return sorted(repr(q) for q in ds.quads((None, None, None, view.identifier))) + sorted(repr(q) for q in ds.quads((s1, None, None, view)))
+    if kind == "path_reused":
+        # one Path object per predicate for the life of the process (as an application keeps them in module constants), evaluated from
+        # either end by reads that stop at the first answer: evaluating it leaves nothing behind in it
+        from rdflib.paths import InvPath, SequencePath
+        key = str(p1)
+        if key not in _PATHS:
+            _PATHS[key] = (SequencePath(p1, InvPath(p1)), SequencePath(InvPath(p1), p1, InvPath(p1)), repr(SequencePath(p1, InvPath(p1))), repr(SequencePath(InvPath(p1), p1, InvPath(p1))))
+        pa, pb, ra, rb = _PATHS[key]
+        out = [repr(view.value(predicate=pa, object=s1, any=True)), repr(view.value(subject=s1, predicate=pa, any=True)), (s1, pa, s1) in view, (None, pb, s1) in view,
+               repr(next(iter(view.subjects(pa, s1)), None)), repr(next(iter(view.subjects(pb, s1)), None)), bool(view.query("ASK { ?a ?p ?b }")),
+               sorted(map(repr, view.subject_objects(pa))), sorted(map(repr, view.subject_objects(pb))), repr(pa) == ra, repr(pb) == rb]
+        return out
+    if kind == "to_iso_ds":
+        return to_isomorphic(ds).graph_digest()
+    if kind == "resource_transitive":
+        r1, r2 = view.resource(s1), view.resource(o1)
+        return [sorted(repr(x.identifier if hasattr(x, "identifier") and not isinstance(x, Literal) else x) for x in r1.transitive_objects(p1)), sorted(repr(x.identifier if hasattr(x, "identifier") and not isinstance(x, Literal) else x) for x in r2.transitive_subjects(p1)),
+                sorted(repr(x.identifier if hasattr(x, "identifier") and not isinstance(x, Literal) else x) for x in r1.transitive_objects(p1))]
     if kind == "get_graph":
         gg = ds.get_graph(view.identifier) if hasattr(ds, "get_graph") else None
         return repr(gg.identifier if gg is not None else None)
     raise ValueError(kind)
+
+
+def expected(w, kind, arg, target):
+    """an answer worked out by the harness itself from the view's triples, for the read kinds that have one (None otherwise)"""
+    if kind != "resource_transitive":
+        return None
+    v = w.v
+    view = set(w.view(target))
+    s1, p1, o1 = v.term(w.cfg["S"][0]), v.term(w.cfg["P"][0]), v.term(w.cfg["O"][0])
+
+    def closure(start, fwd):
+        seen, todo = [], [start]
+        while todo:
+            n = todo.pop()
+            if n in seen:
+                continue
+            seen.append(n)
+            todo += [(t[2] if fwd else t[0]) for t in view if t[1] == p1 and (t[0] if fwd else t[2]) == n]
+        return sorted(repr(x) for x in seen)
+    return [closure(s1, True), closure(o1, False), closure(s1, True)]
 
 
 def stable_digest(kind, fmt, val):
